@@ -105,7 +105,8 @@ def main(
 
     logger.info("Starting time loop")
     # for step in range(model.timer.Nsteps + 1):
-    for _step in range(model.timer.Nsteps):
+    # A warm start has already taken step 0 during initialization
+    for _step in range(model.timer.step + 1, model.timer.Nsteps):
         model.update()
 
     # --------------
